@@ -165,4 +165,7 @@ class DeadCodeElimination(ModulePass):
     name = "dce"
 
     def apply(self, ctx: Context, op: ModuleOp) -> None:
-        region_dce(op.body)
+        # Deleting unreachable blocks can turn an operation with recursive memory
+        # effects into a trivially dead one: iterate until nothing is deleted.
+        while region_dce(op.body):
+            pass
